@@ -1410,6 +1410,12 @@ impl Melda {
     pub fn meld(&self, other: &Melda) -> Result<Vec<String>> {
         let mut result = vec![];
 
+        // Melding a replica with itself transfers nothing (and would need the same
+        // lock for reading and for writing at once)
+        if std::ptr::eq(self, other) {
+            return Ok(result);
+        }
+
         let other_data_r = other.data.read().unwrap();
         // We only trust already loaded deltas
         let other_delta_items = other
